@@ -137,8 +137,9 @@ type HSFields struct {
 	// ReplyOverride, if non-nil, replaces the whole plaintext reply body of this stage
 	ReplyOverride []byte
 	// AuthKey, Salt: what the server has derived by the time of the dh_gen stage (read-only, for fault scripts)
-	AuthKey []byte
-	Salt    int64
+	AuthKey  []byte
+	Salt     int64
+	NewNonce []byte
 	// RawBefore: transport payloads written (each as one frame) just before the reply of this stage
 	RawBefore [][]byte
 }
@@ -164,14 +165,14 @@ type Server struct {
 	// DropAccepted (atomic): that many of the next accepted connections are closed at once.
 	DropAccepted int32
 
-	mu      sync.Mutex
-	conns   []*Conn
-	nconn   int32
-	salts   map[[8]byte]int64 // current salt per key id
-	closed  int32
-	msgSeq  int64
-	Name    string
-	wg      sync.WaitGroup
+	mu     sync.Mutex
+	conns  []*Conn
+	nconn  int32
+	salts  map[[8]byte]int64 // current salt per key id
+	closed int32
+	msgSeq int64
+	Name   string
+	wg     sync.WaitGroup
 }
 
 func New(name string, keys *KeyStore, emit Emit, h Handler) (*Server, error) {
@@ -728,7 +729,7 @@ func (c *Conn) handlePlain(msgID int64, body []byte) {
 		gbI := new(big.Int).SetBytes(gb)
 		authKey := mtp.LeftPad(new(big.Int).Exp(gbI, h.a, mtp.DHPrime).Bytes(), 256)
 		salt := mtp.InitialSalt(h.newNonce, h.serverNonce)
-		f := &HSFields{Stage: "dh_gen", Nonce: h.nonce, ServerNonce: h.serverNonce, Constructor: 0x3bcbf734, NewNonceHash: mtp.NewNonceHash(h.newNonce, authKey, 1), AuthKey: authKey, Salt: mtp.InitialSalt(h.newNonce, h.serverNonce)}
+		f := &HSFields{Stage: "dh_gen", Nonce: h.nonce, ServerNonce: h.serverNonce, Constructor: 0x3bcbf734, NewNonceHash: mtp.NewNonceHash(h.newNonce, authKey, 1), AuthKey: authKey, Salt: mtp.InitialSalt(h.newNonce, h.serverNonce), NewNonce: h.newNonce}
 		if s.Tamper != nil {
 			s.Tamper(f)
 		}
